@@ -438,7 +438,7 @@ fn c18(ctx: &Ctx, rep: &mut Report) {
         }
     }
     let mut rng = Rng::new(ctx.seed, "c18-configs");
-    let nrand = if ctx.thorough { 6000 } else { 350 };
+    let nrand = if ctx.thorough { 20_000 } else { 500 };
     for _ in 0..nrand {
         configs.push(vars.iter().map(|(_, v)| rng.below(v.len())).collect());
     }
